@@ -708,6 +708,12 @@ def compare_fill(e, a, bbox, unit_tol, palette_check=None):
     if e[0] == "linear":
         ep, ap = e[3:6], a[3:6]
         L = math.hypot(ep[1][0] - ep[0][0], ep[1][1] - ep[0][1])
+        # the colour line that counts is P0 -> P3 (P1 projected on the perpendicular of P0 -> P2): with P2 nearly in
+        # line with P1 it is much shorter than P0 -> P1, and that is the length displacements are measured against
+        L2 = math.hypot(ep[2][0] - ep[0][0], ep[2][1] - ep[0][1])
+        cross = abs((ep[1][0] - ep[0][0]) * (ep[2][1] - ep[0][1]) - (ep[1][1] - ep[0][1]) * (ep[2][0] - ep[0][0]))
+        if L2 > 1e-9:
+            L = min(L, cross / L2)
         tol = 0.01 + 3.0 * unit_tol / max(L, 1e-6)
         for x in samples:
             te, ta = _lin_t(*ep, x), _lin_t(*ap, x)
